@@ -200,12 +200,22 @@ def build_coverage(prop, parts, results, known_hit, tier):
     }
 
 
+def _fresh(x):
+    if isinstance(x, str):
+        return "".join(list(x)) if len(x) > 1 else x
+    if isinstance(x, tuple):
+        return tuple(_fresh(v) for v in x)
+    if isinstance(x, list):
+        return [_fresh(v) for v in x]
+    return x
+
+
 def replay(prop, mod, path):
     with open(path) as fd:
         rec = json.load(fd)
     parts = {p.name: p for p in mod.parts(rec.get("tier", "quick"))}
     part = parts[rec["part"]]
-    case = engine.parse_case(rec["case"])
+    case = _fresh(engine.parse_case(rec["case"]))  # option strings equal to, but not identical with, interned literals
     res1 = engine._safe_check(part, case)
     res2 = engine._safe_check(part, case)
     n, outcome, nontriv, viols = res1
